@@ -48,10 +48,13 @@ ASSUMPTIONS = [
 PROBES_REQUIRED = ["token_requests", "encoded_requests", "zip_suffix", "url_selector", "exec_inside_root",
                    "worlds_compared"]
 
-TOKENS = ["..", "../", "/..", "./", "//", ".\\", "\\\\", "\\", "\x00"]
+TOKENS = ["..", "../", "/..", "./", "//", ".\\", "\\\\", "\\", "\x00",
+          # look-alikes that compatibility normalisation / case folding turn into dots and slashes
+          "\uff0e\uff0e/", "\u2025/", "\u2024\u2024/", "..\uff0f", "\uff0e\uff0e\uff0f", "%2e%2e/", "..%2f",
+          "\u00b7\u00b7/"]
 CLIMB_TARGETS = ["secret.txt", "outside/secret.txt", "outside/evil.zip/x.txt", "outside/evil.pyg",
                  "outside/run.sh", "rootX/secret.txt", "root/../secret.txt"]
-BASES = {"bs-name": "/docs/a.\\b.txt", "bs2-name": "/docs/c\\\\d.txt", "dd-name": "/docs/x..y",
+BASES = {"zip-exec": "/arc.zip/bin/tool.sh", "zip-pyg": "/arc.zip/bin/run.pyg", "bs-name": "/docs/a.\\b.txt", "bs2-name": "/docs/c\\\\d.txt", "dd-name": "/docs/x..y",
          "file": "/small.txt", "dir": "/docs", "zip": "/arc.zip", "zip-member": "/arc.zip/d/b.txt",
          "mbox": "/mail.mbox", "script": "/script.sh", "pyg": "/hello.pyg", "missing": "/nope",
          "linkzip": "/linkzip.zip/evil", "linkzip-abs": "/linkzip.zip/abs", "maildir": "/md"}
@@ -120,7 +123,8 @@ def gen_selector(rng):
             sel = base + ("/" if not token.startswith("/") else "") + token + rng.choice(["", "secret.txt", "x"])
         else:
             k = rng.randrange(1, 5)
-            up = rng.choice(["../", "..\\", "..//", "./../"])
+            up = rng.choice(["../", "..\\", "..//", "./../", "\uff0e\uff0e/", "\u2025/", "..\uff0f",
+                             "\uff0e\uff0e\uff0f", "%2e%2e/", "%2e%2e%2f"])
             token = up
             sel = rng.choice([base + "/", "/", "/docs/"]) + up * k + rng.choice(CLIMB_TARGETS)
     elif r < 0.65:
